@@ -400,6 +400,17 @@ fn run(ctx: &Arc<Ctx>) {
             shapes.push(BitmapCase { width: w, bits: (0..len).map(|i| (i * 7 + w) % 3 == 0).collect(), stratum: "shape-edge" });
         }
     }
+    // dimensions that collide with a catalogue size under width * 2^k + height style keys
+    for sym in SYMBOLS.iter() {
+        for (w, h) in [(sym.cols - 1, sym.rows + 256), (sym.cols - 2, sym.rows + 512), (sym.cols, sym.rows + 256), (sym.cols + 1, sym.rows.wrapping_sub(256)), (sym.cols - 1, sym.rows + 128), (sym.cols - 1, sym.rows + 65_536 / 256), (sym.rows, sym.cols)] {
+            if w >= 1 && h >= 1 && h < 2_000 {
+                let base = place::render(sym, &vec![0x5a; sym.total()]);
+                // a valid rendering stretched / cropped to the colliding shape
+                let bits: Vec<bool> = (0..w * h).map(|i| base[((i / w) % sym.rows) * sym.cols + (i % w) % sym.cols]).collect();
+                shapes.push(BitmapCase { width: w, bits, stratum: "shape-collision" });
+            }
+        }
+    }
     ctx.run_enumerated("shape-edges", "bitmap", shapes, Some("widths 0..=150 x lengths {0, 1, w-1, w, w+1, 2w, 8w, 10w, 10w+1, 12w, 144w}: error classification"), check_converse);
     ctx.run_generated("converse", "bitmap", ctx.cases(300_000, 5_000_000), g_converse, check_converse);
 }
